@@ -372,6 +372,28 @@ func ruleCloseOrder(r *Run, p *Program, rule string) {
 			r.ok(rule, "(*pogreb.DB).Close:"+s, p.Pos(f.Pos()), s+" precedes LockFile.Unlock on every path", true)
 		}
 	}
+	// every success return of Close has (re)written each metadata file: the create-open of the file is on the path
+	for _, fam := range []string{"db.pmt", "index.pmt"} {
+		fam := fam
+		wm := &IPWalk{P: p, Visit: func(n Node) bool {
+			c, ok := n.In.(*ssa.Call)
+			if !ok || calleeKey(&c.Call) != "pogreb.openFile" || len(c.Call.Args) != 3 || openFlagsReadOnly(c.Call.Args[2]) {
+				return false
+			}
+			return nameAbs(n.Ctx, c.Call.Args[1], 0) == fam
+		}}
+		wm.Run(root, nil)
+		okm := true
+		for n := range wm.Reached {
+			if isRootSuccessReturn(n) && !isRootFailureForward(wm, n) {
+				okm = false
+				r.bad(rule, "(*pogreb.DB).Close:writes("+fam+")", p.Pos(instrPos(n.In)), "DB.Close can return nil without having rewritten "+fam+": the next Open reads stale metadata (e.g. a hash seed the index was not built with) and silently misses keys", wm.PathTo(n)...)
+			}
+		}
+		if okm {
+			r.ok(rule, "(*pogreb.DB).Close:writes("+fam+")", p.Pos(f.Pos()), "every success return of Close rewrote "+fam, true)
+		}
+	}
 	// success return requires Unlock
 	w2 := &IPWalk{P: p, Visit: func(n Node) bool {
 		e := fsEventOf(n)
@@ -551,6 +573,60 @@ func hasPhi(v ssa.Value, d int) bool {
 		return hasPhi(x.X, d+1) || hasPhi(x.Y, d+1)
 	case *ssa.Convert:
 		return hasPhi(x.X, d+1)
+	}
+	return false
+}
+
+// ruleC06RecoverSyncs: recovery flushes what it replayed: every replayed segment is sealed (synced) or synced directly,
+// the newest one through its own handle (not through datalog.curSeg, which need not be the newest after recovery).
+func ruleC06RecoverSyncs(r *Run, p *Program, rule string) {
+	f := p.Fn("(*pogreb.DB).recover")
+	if !r.anchor(rule, "(*pogreb.DB).recover", f != nil) {
+		return
+	}
+	r.fn(funcKey(f))
+	all, _ := allNodes(p, f)
+	sl := sealers(p)
+	found := false
+	var where Node
+	for n := range all.Reached {
+		e := fsEventOf(n)
+		if !isFileEvent(e, "Sync") || strings.Contains(e.Recv.Chain+".", ".curSeg.") {
+			continue
+		}
+		inSealer := false
+		for c := n.Ctx; c != nil; c = c.Parent {
+			if sl[funcKey(c.Fn)] {
+				inSealer = true
+			}
+		}
+		if inSealer || !isSegmentsSliceElem(e.Recv.Root) {
+			continue
+		}
+		found, where = true, n
+	}
+	pos := p.Pos(f.Pos())
+	if found {
+		pos = p.Pos(instrPos(where.In))
+	}
+	r.check(found, rule, funcKey(f)+":syncs-newest", pos,
+		"recovery syncs the replayed segment that stays writable (the newest) through its own handle, the others are synced when sealed",
+		"recovery does not sync the newest replayed segment through its own handle (outside the sealing helper, not via datalog.curSeg): records the crashed session never flushed stay volatile although they are visible again, and a later Sync - which only flushes datalog.curSeg, not necessarily that segment - does not cover them")
+}
+
+// isSegmentsSliceElem: v is an element loaded from a []*segment (the replay order).
+func isSegmentsSliceElem(v ssa.Value) bool {
+	for _, s := range sources(v) {
+		if u, ok := s.(*ssa.UnOp); ok && u.Op == token.MUL {
+			if ia, ok := u.X.(*ssa.IndexAddr); ok {
+				if strings.Contains(ia.X.Type().String(), "segment") {
+					return true
+				}
+			}
+		}
+		if _, ok := s.(*ssa.Extract); ok {
+			// range over a slice yields the element via extract of next; handled by sources of the load above in go/ssa for slices
+		}
 	}
 	return false
 }
